@@ -17,10 +17,6 @@ import dali.driver.serial as S
 import dali.driver.atxled as ATX
 import dali.driver.daliserver as DSM
 
-# the deeper thorough case list (kept in cases()) could not be re-validated end to end after the final harness
-# changes within the session: see symx/runner.py
-THOROUGH_CASES = "quick"
-
 META = {
     "level_text": "Bounded symbolic verification of the drivers' send(): for a set of command shapes (yes/no, "
                   "numeric and bitmap queries, non-query, send-twice, device type != 0, 24-bit) the real "
